@@ -4,6 +4,8 @@
 //@ assume: GetPeerAddrs/Hand/Shake carry Capabilities decoded with from_bits_truncate (unknown capability bits are dropped by design -- recorded as an observation in DESIGN, not part of the listed canonical-form rules) and are not included here
 //@ harness c10_ping_pong_canonical kind=complete tier=quick fns=Ping::read,Ping::write,Pong::read,Pong::write bound=-
 //@ harness c10_txhashset_msgs_canonical kind=complete tier=quick fns=TxHashSetRequest::read,TxHashSetRequest::write,TxHashSetArchive::read,TxHashSetArchive::write bound=-
+//@ harness c10_segment_request_canonical kind=complete tier=quick fns=SegmentRequest::read,SegmentRequest::write,SegmentIdentifier::read,SegmentIdentifier::write bound=-
+//@ harness c10_ban_reason_canonical kind=complete tier=quick fns=BanReason::read,BanReason::write bound=-
 use crate::core::ser::SerializationMode;
 use crate::core::verif_kani_support::{KReader, KWriter};
 
@@ -59,5 +61,55 @@ fn c10_txhashset_msgs_canonical() {
 			assert!(w2.buf[i] == buf[i], "C10: TxHashSetRequest re-encodes byte-identically");
 		}
 		i += 1;
+	}
+}
+
+/// SegmentRequest (32-byte block hash + 9-byte segment identifier): every 41-byte string decodes and
+/// re-encodes identically under every protocol version.
+#[kani::proof]
+#[kani::unwind(43)]
+#[kani::stub(alloc::fmt::format, stub_format)]
+fn c10_segment_request_canonical() {
+	let buf: [u8; 41] = kani::any();
+	let ver: u32 = kani::any();
+	let mut r = KReader::<41>::full(buf, ver);
+	let q = SegmentRequest::read(&mut r);
+	assert!(q.is_ok() && r.pos == 41);
+	let q = q.unwrap();
+	assert!(q.identifier.height == buf[32], "C10: segment height is the 33rd byte");
+	let mut ib = [0u8; 8];
+	ib.copy_from_slice(&buf[33..41]);
+	assert!(q.identifier.idx == u64::from_be_bytes(ib), "C10: segment index decodes to the encoded number");
+	let mut w = KWriter::<41>::new(ver, SerializationMode::Full);
+	assert!(q.write(&mut w).is_ok() && w.pos == 41);
+	let mut i = 0;
+	while i < 41 {
+		assert!(w.buf[i] == buf[i], "C10: SegmentRequest re-encodes byte-identically");
+		i += 1;
+	}
+}
+
+/// BanReason: a 4-byte body decodes exactly when it is one of the eight known reasons, and then
+/// re-encodes to the same four bytes (unknown tags are refused, not normalised).
+#[kani::proof]
+#[kani::unwind(6)]
+#[kani::stub(alloc::fmt::format, stub_format)]
+fn c10_ban_reason_canonical() {
+	let buf: [u8; 4] = kani::any();
+	let ver: u32 = kani::any();
+	let mut r = KReader::<4>::full(buf, ver);
+	let b = BanReason::read(&mut r);
+	let v = i32::from_be_bytes(buf);
+	assert!(b.is_ok() == (v >= 0 && v <= 7), "C10: BanReason accepts exactly the known tags");
+	if let Ok(b) = b {
+		assert!(r.pos == 4);
+		assert!(b.ban_reason as i32 == v, "C10: BanReason decodes to the encoded tag");
+		let mut w = KWriter::<4>::new(ver, SerializationMode::Full);
+		assert!(b.write(&mut w).is_ok() && w.pos == 4);
+		let mut i = 0;
+		while i < 4 {
+			assert!(w.buf[i] == buf[i], "C10: BanReason re-encodes byte-identically");
+			i += 1;
+		}
 	}
 }
